@@ -57,4 +57,24 @@ theorem setIdx_set {α : Type} (l : List α) (i : Nat) (v v' : α) (h : i < l.le
     Rs.setIdx (l.set i v) i v' = Res.ok (l.set i v') := by
   rw [Rs.setIdx_ok (by simpa using h), List.set_set]
 
+/-- a pre-allocated vector `acc ++ 0…0` filled from the left: writing slot `acc.length` appends to `acc` -/
+theorem setIdx_append_replicate {α : Type} (acc : List α) (n : Nat) (z v : α) :
+    Rs.setIdx (acc ++ List.replicate (n + 1) z) acc.length v = Res.ok ((acc ++ [v]) ++ List.replicate n z) := by
+  rw [Rs.setIdx_ok (by simp)]
+  congr 1
+  rw [List.replicate_succ, List.set_append_right _ _ (Nat.le_refl _)]
+  simp
+
+/-- the head of `l.drop r` is `l[r]` -/
+theorem getElem?_of_drop_eq_cons {α : Type} (l : List α) (r : Nat) (a : α) (rest : List α) (h : a :: rest = l.drop r) :
+    l[r]? = some a ∧ rest = l.drop (r + 1) := by
+  have h1 : (l.drop r)[0]? = some a := by rw [← h]; simp
+  rw [List.getElem?_drop] at h1
+  have h1' : l[r]? = some a := by simpa using h1
+  refine ⟨h1', ?_⟩
+  have hr : r < l.length := (List.getElem?_eq_some_iff.mp h1').1
+  have : l.drop r = l[r] :: l.drop (r + 1) := List.drop_eq_getElem_cons hr
+  rw [← h] at this
+  exact (List.cons.inj this).2
+
 end RbV.Thm.GenSrc
